@@ -146,7 +146,13 @@ fn cslicebox<T: El>() -> R {
             ensure!(unsafe { (*(v.data as *const T).add(i)).val() } == i as u64, "layout:slicebox_read", "element {} differs", i);
         }
         let f = v.drop_fn.ok_or(("layout:slicebox_dropfn".to_string(), "third word is not a function pointer".to_string()))?;
-        unsafe { f(&mut v as *mut CSliceBoxView as *mut CSliceView) };
+        // the published signature hands the release function a {data, len} descriptor, nothing more: a foreign holder may
+        // have copied the descriptor out of the box. It is placed between sentinel words here.
+        const SENT: usize = 0x5a5a_a5a5_1234_4321;
+        let mut frame: [usize; 6] = [SENT, v.data as usize, v.len, SENT, SENT, SENT];
+        unsafe { f(frame.as_mut_ptr().add(1) as *mut CSliceView) };
+        ensure!(frame[0] == SENT && frame[3] == SENT && frame[4] == SENT && frame[5] == SENT, "layout:slicebox_release_overrun", "drop_fn(&descriptor) wrote outside the {{data, len}} descriptor it was given (neighbouring words {:#x?})", [frame[0], frame[3], frame[4], frame[5]]);
+        v.drop_fn = None;
         for i in 0..n {
             ensure!(d.count(base + i) == 1, "layout:slicebox_release", "element {} dropped {} time(s) by drop_fn(&instance)", i, d.count(base + i));
         }
